@@ -266,6 +266,7 @@ type ledgers struct {
 	entries   map[entKey]*entRec
 	committed map[uint64]uint64 // index -> term
 	commitBy  map[uint64]string
+	commitIn   map[uint64]uint64 // index -> lowest term of a node at the moment it was seen to have committed the index
 	commitHash map[uint64]uint64 // index -> payload hash of the entry as held by the node that committed it
 	upto      uint64   // committed prefix known contiguously
 	G         []uint64 // committed update commands in index order (up to upto)
@@ -297,6 +298,7 @@ func (l *ledgers) init(run *simRun) {
 	l.committed = map[uint64]uint64{}
 	l.commitBy = map[uint64]string{}
 	l.commitHash = map[uint64]uint64{}
+	l.commitIn = map[uint64]uint64{}
 	l.cmdAt = map[uint64][]entKey{}
 	l.everVoter = map[uint64]bool{}
 	l.okUpdates = map[uint64]*opRec{}
@@ -705,6 +707,9 @@ func (l *ledgers) observe(ni *nodeInc) {
 		}
 		for i := o.commit + 1; i <= c; i++ {
 			if t, ok := o.terms[i]; ok {
+				if ct, seen := l.commitIn[i]; !seen || r.term < ct {
+					l.commitIn[i] = r.term
+				}
 				if _, known := l.commitHash[i]; !known {
 					e := &entry{}
 					if err := r.storage.getEntry(i, e); err == nil {
@@ -970,10 +975,17 @@ func (l *ledgers) checkDurableOnMajority(ldr *nodeInc, i, t uint64, what string)
 	}
 	if holders < voters/2+1 {
 		sig := "not_durable_on_majority"
+		prop := "C06"
 		if !conf.isVoter(ldr.node.id) {
 			sig += ":leader_not_voter"
+			if run.target == "C11" {
+				prop = "C11" // a non-voter's own copy (or acknowledgement) was counted towards commitment
+			}
+		} else if nonvoterHolders > 0 && holders+nonvoterHolders >= voters/2+1 && run.target == "C11" {
+			sig += ":nonvoter_acks_counted"
+			prop = "C11"
 		}
-		run.violate("C06", "not_durable_on_majority", sig, "entry (%d,%d) is reported committed (%s %v) but only %d of %d voters of %v hold it durably\n%s", i, t, what, ldr, holders, voters, *conf, detail)
+		run.violate(prop, "not_durable_on_majority", sig, "entry (%d,%d) is reported committed (%s %v) but only %d of %d voters of %v hold it durably\n%s", i, t, what, ldr, holders, voters, *conf, detail)
 	}
 }
 
@@ -1041,6 +1053,10 @@ func (l *ledgers) onReturn(op *opRec) {
 		return
 	}
 	err := t.Err()
+	if err == nil && l.x.duringTransfer[op.task.(*newEntry).task] {
+		l.run.violate("C16", "task_accepted_during_transfer", "task_accepted_during_transfer:"+op.Kind.String(), "%s task handed to leader %v while a leadership transfer was in progress completed successfully instead of being rejected", op.Kind, op.inc)
+		return
+	}
 	if err == nil {
 		op.Outcome = outOK
 		switch v := t.Result().(type) {
@@ -1250,6 +1266,15 @@ func (run *simRun) probe(name string, args []interface{}) {
 		ld := args[0].(*leader)
 		if ni := run.incOf(ld.Raft); ni != nil && !ni.dead && ni.obs.started {
 			run.led.onDoChangeConfig(ni, ld, args[2].(Config))
+		}
+	case "leader.storeEntry:enter":
+		ld := args[0].(*leader)
+		if ni := run.incOf(ld.Raft); ni != nil && !ni.dead && ni.obs.started && ld.transfer.inProgress() {
+			for ne := args[1].(*newEntry); ne != nil; ne = ne.next {
+				if ne.task != nil {
+					run.led.x.duringTransfer[ne.task] = true
+				}
+			}
 		}
 	case "leader.onTransfer:enter":
 		ld := args[0].(*leader)
